@@ -17,6 +17,11 @@
     sends `close_notify` first and waits up to 5 s for a peer that does not read; a wrapped connection may take
     any time) BEFORE the counter is decremented, and the map entry goes last.  So the counter `Shutdown` polls
     still counts a connection whose `Close` is under way (`closingSock`).
+  * `Proxy.Close` calls `conn.Close()` on every connection of the map — also on one whose handler is inside its own
+    `conn.Close()`.  A connection serialises its Close calls: the second caller returns at once with an error
+    (crypto/tls `net.ErrClosed`, internal/poll `errClosing`) and closes nothing (`sweepClose`); that socket is closed
+    only at the handler's `closeDone`, so it can OUTLIVE `Proxy.Close` (known finding F53: on a TLS listener by up to
+    the 5 s write deadline of `close_notify`).
   * `closing()` is read: by `Serve` before every `Accept`; by `handleLoop` right after the
     registration (`closingCheck0`); by `handle` AFTER the request was read (`closingCheck`);
     by `writeResponse` before the head is written.
@@ -394,6 +399,17 @@ def closeListener (s : State) : State :=
 
 def lockFree (s : State) : Bool := s.lock == .none
 
+/-- `conn.Close()` as `Proxy.Close` calls it on a connection of the map.  Close calls on ONE connection are
+    serialised by the connection, not by the proxy: while the handler of the connection is inside its own
+    `conn.Close()` (`closingSock`), a second call does NOT wait for the first and does NOT close the socket — it returns
+    an error at once (crypto/tls `Conn.Close`: the `activeCall` bit is set, `return net.ErrClosed`; internal/poll
+    `FD.Close`: `increfAndClose` fails, `errClosing`).  The socket is then closed only when the FIRST call gets there:
+    at the handler's `closeDone`.  (On a plain TCP socket the first call is a non-blocking system call; on a TLS
+    connection it first writes `close_notify` under a write deadline of 5 s of its own and stays there for as long as
+    the peer does not read.)  In every other state the socket is closed by this call. -/
+def sweepClose (x : Conn) : Conn :=
+  { x with sockClosed := x.sockClosed || x.pc != .closingSock }
+
 def step (s : State) : Action → Option State
   | .conn c a =>
     match cstep s.closing (lockFree s) (s.conns c) a with
@@ -495,9 +511,10 @@ def step (s : State) : Action → Option State
     if s.closes k = .locked then
       some { setClose s k .closedCh with closing := true, sweepLeft := s.registered, everClosed := true } else none
   | .closeConn k c =>
-    -- one iteration of the loop (map order is arbitrary): `conn.Close()`
+    -- one iteration of the loop (map order is arbitrary): `conn.Close()` — which closes the socket unless the
+    -- handler's own `conn.Close()` is under way (`sweepClose`): then it returns at once and closes nothing
     if s.closes k = .closedCh ∧ c ∈ s.sweepLeft ∧ c ∈ s.ids then
-      some { setConn s c { s.conns c with sockClosed := true } with sweepLeft := s.sweepLeft.erase c }
+      some { setConn s c (sweepClose (s.conns c)) with sweepLeft := s.sweepLeft.erase c }
     else none
   | .closeAll k =>
     -- the loop is over
